@@ -857,7 +857,13 @@ func (a *an) classOfGlobal(v *types.Var, depth int) Class {
 	return Class{Pkg: relPath(v.Pkg().Path()), Var: v.Name(), Depth: depth}
 }
 
-func (a *an) typeOf(e ast.Expr) types.Type { return a.p.info.TypeOf(e) }
+func (a *an) typeOf(e ast.Expr) types.Type {
+	t := a.p.info.TypeOf(e)
+	if tu, ok := t.(*types.Tuple); ok && tu.Len() > 0 { // comma-ok forms: v, ok := m[k]
+		return tu.At(0).Type()
+	}
+	return t
+}
 
 // deep read: the value is handed to code that may read everything reachable through containers
 func (a *an) deepRead(st *state, r ref, t types.Type, pos token.Pos) {
